@@ -402,7 +402,7 @@ def wrap_function(the_function, extra_args, eval_monitor, scale=1, start=0):
 
 def wrap_bounds(target_function, min=None, max=None):
     "impose bounds on a function object"
-    from numpy import asarray, any, inf, seterr
+    from numpy import asarray, all, inf, seterr
     bounds = True
     if min is not None and max is not None: #has upper & lower bound
         min = asarray(min)
@@ -418,7 +418,7 @@ def wrap_bounds(target_function, min=None, max=None):
     if bounds:
         def function_wrapper(x):
             settings = seterr(all='ignore') #XXX: slow to suppress warnings?
-            if any((x<min)|(x>max)): #if violate bounds, evaluate as inf
+            if not all((x>=min)&(x<=max)): #if not in bounds (or nan), evaluate as inf
                 seterr(**settings)
                 return inf
             seterr(**settings)
